@@ -307,14 +307,17 @@ def build_script(desc, calc_id):
     oid = calc_id(old)
     ns = 2
     prov = desc["prov"]
+    tw, sid = None, 0
     if prov in ("PInit", "PUninit"):
         hm = 0
     elif prov == "PSpFresh":
         ops.append((0, ["OpenSp", 0, typed(old)])); hm = nh; nh += 1
     elif prov == "PIdCached":
-        ops.append((0, ["OpenId", 0, oid])); hm = nh; nh += 1
+        # a by-id handle gets a twin: a second independent open_job(id=...) on the same Project object
+        ops += [(0, ["OpenId", 0, oid]), (0, ["OpenId", 0, oid])]; hm = nh; tw = nh + 1; nh += 2
     else:
-        ops += [(0, ["NewSession", "A"]), (0, ["OpenId", 2, oid])]; hm = nh; nh += 1; ns = 3
+        ops += [(0, ["NewSession", "A"]), (0, ["OpenId", 2, oid]), (0, ["OpenId", 2, oid])]
+        hm = nh; tw = nh + 1; nh += 2; ns = 3; sid = 2
     if desc["access"]:
         ops.append((0, ["Sp", hm]))
     dp = pk = c1 = c2 = None
@@ -346,7 +349,7 @@ def build_script(desc, calc_id):
     if route[0] == "move-edit":
         ops.append((4, ["Edit", hm, route[1], route[2]]))
     ops.append((3, ["Tree"]))
-    for k, x in enumerate([hm, c1, c2, dp, pk, cl]):
+    for k, x in enumerate([hm, c1, c2, dp, pk, cl, tw]):
         if x is not None:
             ops += [(10 + 3 * k, ["IdPath", x]), (11 + 3 * k, ["Sp", x]), (12 + 3 * k, ["Cached", x])]
     ops += [(0, ["NewSession", "A"]), (40, ["Ids", ns]), (0, ["NewSession", "B"]), (41, ["Ids", ns + 1])]
@@ -358,6 +361,8 @@ def build_script(desc, calc_id):
         if x is not None:
             ops.append((0, ["Init", x, False]))
     ops.append((70, ["Tree"]))
+    if tw is not None:
+        ops.append((42, ["OpenId", sid, oid]))
     return ops
 
 
